@@ -65,6 +65,18 @@ def cases(tier):
                     yield {"kind": "stream", "sel": sel, "custom": custom, "n": n, "mode": mode, "resolver": rk}
                     if si in (0, 2) and "tick" not in sel:
                         yield {"kind": "stream", "sel": sel, "custom": custom, "n": n, "mode": mode, "resolver": rk, "sdl": "single"}
+    # variables: defaults and provided values must reach both the subscription field and every event
+    for n in range(0, min(b["events"], 3) + 1):
+        for variables in ({}, {"s": 2}):
+            for rk in ("sync", "async"):
+                yield {"kind": "stream", "sel": "tick(step: $s)", "vardefs": "($s: Int = 3)", "variables": variables,
+                       "custom": {"Subscription.tick": "async"}, "n": n, "mode": "deferred", "resolver": rk}
+    # a null event is an event like any other; a source object that is falsy is still a source
+    for n in range(1, min(b["events"], 3) + 1):
+        for k in range(n):
+            yield {"kind": "stream", "sel": "ev { x }", "custom": {"Obj.x": "async"}, "n": n, "mode": "immediate", "resolver": "sync", "none_at": k}
+        for mode in ("falsy", "falsy-deferred"):
+            yield {"kind": "stream", "sel": "ev { x }", "custom": {"Obj.x": "async"}, "n": n, "mode": mode, "resolver": "async"}
     for name in ("two-fields", "two-fields-fragment", "no-subscription-resolver", "query-operation", "mutation-operation", "blocking-runtime", "threadpool-runtime"):
         yield {"kind": "refusal", "name": name}
 
@@ -72,10 +84,11 @@ def cases(tier):
 class Source:
     """async iterator over the events; each delivery is an external completion owned by the explorer"""
 
-    def __init__(self, world, loop, n, mode):
+    def __init__(self, world, loop, n, mode, none_at=None):
         self.world, self.loop, self.n, self.mode = world, loop, n, mode
         self.k = 0
         self.pulls = 0
+        self.none_at = none_at
 
     def __aiter__(self):
         return self
@@ -84,14 +97,21 @@ class Source:
         self.pulls += 1
         k = self.k
         self.k += 1
-        if self.mode == "deferred":
+        if self.mode in ("deferred", "falsy-deferred"):
             await self.loop.defer("src:%d" % k, lambda: None)
         if k >= self.n:
             self.world.ev("source-end")
             raise StopAsyncIteration
         self.world.event_index = k
         self.world.ev("event", k)
-        return _event(k)
+        return None if self.none_at == k else _event(k)
+
+
+class FalsySource(Source):
+    """a queue-like source object: defines __len__ and is empty (falsy) when handed over"""
+
+    def __len__(self):
+        return 0
 
 
 _SCHEMAS = {}
@@ -154,15 +174,17 @@ def _body(case, overrides, ch):
     world = H.World(overrides)
     loop = VLoop()
     world.loop = loop
-    world.source = Source(world, loop, case["n"], case["mode"])
+    cls = FalsySource if case["mode"].startswith("falsy") else Source
+    world.source = cls(world, loop, case["n"], case["mode"], case.get("none_at"))
     schema = _schema(case["custom"], case["resolver"], case.get("sdl", "full"))
-    doc = _DOCS.get(case["sel"])
+    dkey = (case["sel"], case.get("vardefs", ""))
+    doc = _DOCS.get(dkey)
     if doc is None:
-        doc = _DOCS[case["sel"]] = parse("subscription { %s }" % case["sel"])
+        doc = _DOCS[dkey] = parse("subscription %s { %s }" % (case.get("vardefs", ""), case["sel"]))
     rt = AsyncIORuntime(loop=loop, execute_blocking_functions_in_thread=False)
 
     async def main():
-        stream = await subscribe(schema, doc, runtime=rt, context_value=world)
+        stream = await subscribe(schema, doc, runtime=rt, context_value=world, variables=case.get("variables"))
         out = []
         async for res in stream:
             out.append(_obs_result(res))
@@ -188,15 +210,16 @@ def _reference(case, overrides):
     from mc.sched import harness as H
 
     schema = _schema({c: "sync" for c in case["custom"]}, "sync", case.get("sdl", "full"))
-    key = "q:" + case["sel"]
+    key = ("q:" + case["sel"], case.get("vardefs", ""))
     doc = _DOCS.get(key)
     if doc is None:
-        doc = _DOCS[key] = parse("query { %s }" % case["sel"].replace("on Subscription", "on Query"))
+        doc = _DOCS[key] = parse("query %s { %s }" % (case.get("vardefs", ""), case["sel"].replace("on Subscription", "on Query")))
     out = []
     for k in range(case["n"]):
         world = H.World(overrides)
         world.event_index = k
-        res = process_graphql_query(schema, doc, root=_event(k), context=world, executor_cls=BlockingExecutor, validators=[])
+        root = None if case.get("none_at") == k else _event(k)
+        res = process_graphql_query(schema, doc, root=root, context=world, executor_cls=BlockingExecutor, validators=[], variables=case.get("variables"))
         out.append(_obs_result(res))
     return out
 
@@ -211,7 +234,7 @@ def _paths(case):
 
     schema = _schema({c: "sync" for c in case["custom"]}, "sync", case.get("sdl", "full"))
     world = H.World({})
-    process_graphql_query(schema, parse("query { %s }" % case["sel"].replace("on Subscription", "on Query")), root=_event(0), context=world, executor_cls=BlockingExecutor, validators=[])
+    process_graphql_query(schema, parse("query %s { %s }" % (case.get("vardefs", ""), case["sel"].replace("on Subscription", "on Query"))), root=_event(0), context=world, executor_cls=BlockingExecutor, validators=[], variables=case.get("variables"))
     out = []
     for e in world.log:
         if e[0] == "invoke" and e[1] not in out:
@@ -328,7 +351,7 @@ def check_case(case, st):
         for choices, (obs, world) in explore(body, bound=b["early_bound"], st=st, max_execs=(2000 if st.tier == "quick" else 50000)):
             st.n("evaluations")
             if case["n"] >= 2:
-                st.nt((case.get("sdl", "full"), case["sel"], sorted(case["custom"].items()), case["n"], case["mode"], case["resolver"], sorted(ov.items()), choices))
+                st.nt((case.get("sdl", "full"), case.get("none_at"), json.dumps(case.get("variables")), case["sel"], sorted(case["custom"].items()), case["n"], case["mode"], case["resolver"], sorted(ov.items()), choices))
             cls, detail = _compare(obs, ref, case["n"])
             st.outcome((cls, json.dumps(obs["results"])))
             if cls:
